@@ -1558,7 +1558,8 @@ func (env *Env) havocTarget(st *State, x Expr) error {
 			if err != nil {
 				return err
 			}
-			e.heapSet(st, "G|"+base.Name, sort, nt)
+			// a ghost map keyed by object reference: the write is attributed to that object (loop havoc, fresh_writes)
+			e.withRef(idxs[0], func() { e.heapSet(st, "G|"+base.Name, sort, nt) })
 			return nil
 		}
 		// slice element
